@@ -29,6 +29,15 @@ Theorem C19_group_filter_exact :
 Proof. exact gen_filter_exact. Qed.
 Print Assumptions C19_group_filter_exact.
 
+(* ... and the engine hands the filter the name a group is registered and reported under (bundle prefix applied),
+   keeping the group iff the filter accepts it (regenerated from ir_loader.go:loadRuleGroup). *)
+Theorem C19_filter_sees_reported_name :
+  forall prefix name filter,
+    load_group_head gen_filter_call_site prefix name filter [] =
+    Some (if filter (final_name prefix name) then Some (final_name prefix name) else None).
+Proof. exact gen_filter_sees_final_name. Qed.
+Print Assumptions C19_filter_sees_reported_name.
+
 (* the cached-engine function regenerated from prepareEngine *)
 Definition prep := gen_prep.
 
